@@ -81,8 +81,20 @@ func c07Encode(lz4On bool, payload []byte, self bool) (*c07Seg, error) {
 	return s, nil
 }
 
-// c07Accepts reports whether the (altered) bytes are accepted as a valid segment.
+// c07Accepts reports whether the (altered) bytes are accepted as a valid segment. The altered bytes are
+// presented TWICE in a row to the same codec instance (a corrupted segment may well be retransmitted or
+// re-read): a decoder that remembers anything from a rejected attempt must still reject the second one.
 func c07Accepts(codec segment.Codec, wire []byte) (accepted bool, detail string) {
+	if ok, d := c07AcceptsOnce(codec, wire); ok {
+		return true, d
+	}
+	if ok, d := c07AcceptsOnce(codec, wire); ok {
+		return true, "on the second presentation of the same altered bytes to the same codec instance: " + d
+	}
+	return false, ""
+}
+
+func c07AcceptsOnce(codec segment.Codec, wire []byte) (accepted bool, detail string) {
 	seg, err := codec.DecodeSegment(bytes.NewReader(wire))
 	if err == nil {
 		n := -1
